@@ -7,7 +7,7 @@ from concurrent.futures import ThreadPoolExecutor
 from . import core
 from .core import cq_bool, cq_list, cq_nat
 
-THEOREMS = ["C02_safe_partial", "C02_head_well_moded", "C02_refuted_deferred", "C02_head_on_witness",
+THEOREMS = ["C02_safe", "C02_skip_check_refuted", "C02_safe_modes", "C02_head_well_moded", "C02_refuted_deferred", "C02_head_on_witness",
             "C02_refuted_corrupt", "C02_refuted_split_lookup", "C02_timeout_guard", "C02_mutex", "C02_no_deadlock", "C02_m1_rejected", "C02_lock_mutex", "C02_busy_only_on_upgrade", "C02_example"]
 
 KNOWN_TAG = "corrupt-db-concurrent-recovery"
@@ -593,7 +593,7 @@ def run(ctx):
         gen = (core.HEADER + "From Coq Require Import List Bool Arith.\nImport ListNotations.\n"
                "From PV Require Import Lib.Lock Model.C02_conc.\n"
                "Definition gen_prog : prog := %s.\n"
-               "(* Tie_C02: the side condition of C02_safe_partial on the regenerated skeleton *)\n"
+               "(* Tie_C02: the side conditions of C02_safe on the regenerated skeleton *)\n"
                "Eval vm_compute in (side_ok gen_prog).\n"
                "Eval vm_compute in (match ty gen_prog MClosed with Some MClosed => true | _ => false end).\n"
                "Eval vm_compute in (Nat.eqb (size gen_prog) (size prog_head)).\n"
@@ -700,8 +700,8 @@ def run(ctx):
         "fairness: a statement that needs a lock held by another connection waits in SQLite's busy handler and is retried; "
         "the 5 s busy timeout never expires (a lock holder makes progress)",
         "SQLite implements the lock table of Lib/Lock.v (compared on every run with two real connections)",
-        "C02_safe_partial does not exclude 'no such table/column' errors (ESchema); they are in the model and in the "
-        "correspondence and are searched for by the oracle",
+        "C02_safe assumes that calls which skip the start-up check (path already in parse.initialized_dbs) start on a "
+        "database whose tables have the expected layout (tie: the path is marked only after the start-up statements)",
         "a database file that is garbage is outside the theorem (known finding %s)" % KNOWN_TAG,
     ]
 
